@@ -12,4 +12,4 @@ echo "== build WITH patch"; go build ./... && echo build-ok
 echo "== demo WITH patch (expect FAIL)"
 go test -vet=off -count=1 -run '^TestSeedDemo$' . 2>&1 | tail -4
 echo "== full suite WITH patch, demo skipped (expect ok)"
-go test -vet=off -count=1 -timeout 25m -skip '^TestSeedDemo$' ./... 2>&1 | tail -4
+go test -vet=off -count=1 -timeout 25m -skip '^TestSeedDemo$' ./... 2>&1 | grep -E '^(--- FAIL|FAIL|ok|panic|\?)' | tail -8
